@@ -316,6 +316,7 @@ def run(ck: Check):
     results = run_cases(ck, progs)
     terms = [case_term(r) for r in results]
     bad = ck.coq_eval("td", HEADER, terms, "td_case", "check_td", shard=300)
+    ck.run_fixed({"rejected_add_registers_no_callback": "C01:invoked-unregistered"})
     sigs, n_fail = {}, 0
     for r in results:
         for sig, what in oracle(r):
